@@ -43,6 +43,8 @@ mod c16_idxw;
 mod c16_idxr;
 #[path = "../shared/c16_idxc.rs"]
 mod c16_idxc;
+#[path = "../shared/c16_hread.rs"]
+mod c16_hread;
 
 use c16_adversary::{AdvReader, AdvWriter, Sched, block_on};
 
@@ -929,6 +931,7 @@ fn generate(rng: &mut Rng, tier: &str, w: &mut CaseWriter) {
     c16_idxw::generate(rng, tier, w);
     c16_idxr::generate(rng, tier, w);
     c16_idxc::generate(rng, tier, w);
+    c16_hread::generate(rng, tier, w);
 }
 
 fn run(c: &Case) -> Obs {
@@ -939,7 +942,7 @@ fn run(c: &Case) -> Obs {
         "ardr" => c16_model_rw::run_ardr(c),
         "awr" => c16_model_rw::run_awr(c),
         "abam" => c16_model_rw::run_abam(c),
-        k => match c16_lines::run(c).or_else(|| c16_wave6::run(c)).or_else(|| c16_fmt::run(c)).or_else(|| c16_enc::run(c)).or_else(|| c16_idxw::run(c)).or_else(|| c16_idxr::run(c)).or_else(|| c16_idxc::run(c)) {
+        k => match c16_lines::run(c).or_else(|| c16_wave6::run(c)).or_else(|| c16_fmt::run(c)).or_else(|| c16_enc::run(c)).or_else(|| c16_idxw::run(c)).or_else(|| c16_idxr::run(c)).or_else(|| c16_idxc::run(c)).or_else(|| c16_hread::run(c)) {
             Some(o) => o,
             None => Obs::fail("-", "harness-unknown-kind", k),
         },
